@@ -334,6 +334,32 @@ def refute_lengths(gate):
     return None
 
 
+def refute_range_index(ev, gate):
+    """v[i] inside `for i in 0..n`: i < n by construction, so the index is in bounds when len(v) is n or has the
+    length class of n (all per-step vectors of a parsed building are equally long, A6 / K1)."""
+    cond = gate[-1]
+    if cond.op != "le":
+        return None
+    L, I = cond.a
+    for g in gate:
+        if g.op != "in_loop":
+            continue
+        info = ev.loops_info.get(g.a[0])
+        if info is None or info.get("elem") is not I:
+            continue
+        it = info["iter"]
+        if not (it.op == "iter" and it.a[0].op == "adt" and it.a[0].a[0] == "Range" and len(it.a[0].a) == 4
+                and it.a[0].a[2] is tm.ZERO):
+            continue
+        n = it.a[0].a[3]
+        if L is n:
+            return "index is the element of a loop over 0..len of this vector"
+        cl, cn = lclass(L), lclass(n)
+        if cl is not None and cl == cn:
+            return "index is the element of a loop over 0..n and the vector has the length class of n (%s)" % (cl,)
+    return None
+
+
 # ---------------------------------------------------------------------------------- non-emptiness
 def refute_nonempty(ev, gate):
     """cr_list[0] style: len(collect(filter(it, F))) <= 0 refuted by a fact any(it', G) with G => F."""
@@ -477,6 +503,9 @@ def refute(ev, eff):
         if r:
             return r
         r = refute_nonempty(ev, real)
+        if r:
+            return r
+        r = refute_range_index(ev, gate)
         if r:
             return r
         r = refute_cli_values(real)
